@@ -76,7 +76,8 @@ PROPS = {
                 cone=["Model/Fmt.v", "Proofs/FmtP.v", "Gen/Tables.v"],
                 rule="exhaustive: every catalogue entry (every built-in test of every type, plain and negated, required / not_nil / coerce per type, front-end decode failures) x {no language, en, es, unknown language} plus test-level Message, execution-level formatter, both, and a formatter that sets nothing, after an i18n re-installation; then random (entry, language, test message, execution formatter) combinations; the finite theorems are re-proved against the tables dumped from the running code; distinct = distinct (entry, which formatters are present)",
                 families=[sat("messages", "messages", 1500, 12000, ["message", "described", "described_custom"]),
-                          eng("engine", "C11", 700, 8000, ["params", "dtype", "msg", "panic"])]),
+                          eng("engine", "C11", 700, 8000, ["params", "dtype", "msg", "panic"]),
+                          sat("helpers", "helpers", 500, 6000, ["fields"], shard=300)]),   # the issue names the type of the node that is there now, also on schemas derived with Pick/Omit/Extend/Merge
     "C13": dict(theorems=["C13_modes_agree", "C13_engine_modes_agree", "C13_default_coercers_are_identity_on_typed_values", "C13_premise_is_satisfiable", "C13_engine_computes_semantics"], cone=ENGINE_CONE + ["Proofs/ModesP.v", "Model/Coerce.v"],
                 rule="a generated schema (no Preprocess, no custom coercers; tests, Catch, Default and PostTransforms at every level) and a generated fully populated value of its destination type (no zero leaf, no empty slice, no nil pointer); the value is validated in place and, presented as the plain map it would be decoded from, parsed into a fresh destination; issues (path, code, type, message) and final values are compared with each other (model-free; with PostTransforms only when neither run reports an issue, because their gating on the execution-wide error state makes the result depend on each run's field visit order - the recorded C09 finding) and both executions with the Coq engine under their own visit orders; distinct = distinct (schema shape, issue codes, mode)",
                 families=[dict(name="modes", family="modes", profile="C13", quick=700, thorough=12000, tags=["modes_agree", "panic", "nil", "issues", "dest"])]),
